@@ -304,11 +304,174 @@ fn rich_case(ctx: &mut Ctx, picks: &[usize]) {
     oracle(ctx, &text.replace('\n', " "), &b.schema, &rt);
 }
 
+// ---------------------------------------------------------------- systematic families (generator audit G3)
+
+fn dirdef(name: &str) -> D { D { tag: Tag::DirDef, kind: 0, name: name.into(), dirs: vec![], ifaces: vec![], members: vec![] } }
+
+/// Root-operation matrix for the "can the `schema` definition stay implicit" decision of `Schema::to_ast`:
+/// per operation type, the root is unset / set by the definition / set by an extension, to the default name or to
+/// another object, while the default-named type is absent / an object / not an object.
+/// Quick: every triple in which at least one operation is (unset, absent) — all pairs; thorough: all triples,
+/// schema directives on and off, one extension per extension-set root or a single one.
+fn root_matrix(ctx: &mut Ctx) {
+    const DEFAULT: [&str; 3] = ["Query", "Mutation", "Subscription"];
+    const OPS: [&str; 3] = ["query", "mutation", "subscription"];
+    let variants: &[(bool, bool)] = if ctx.thorough { &[(false, false), (true, false), (false, true)] } else { &[(false, false)] };
+    for code in 0..15usize * 15 * 15 {
+        let cell = [code % 15, (code / 15) % 15, code / 225];
+        if !ctx.thorough && !cell.iter().any(|c| *c == 0) { continue; }
+        for &(with_dir, split_ext) in variants {
+            let mut defs = vec![t(1, "T0", &[], &["a"])];
+            let (mut in_def, mut in_ext): (Vec<(&str, &str)>, Vec<(&str, &str)>) = (vec![], vec![]);
+            for i in 0..3 {
+                let (state, exists) = (cell[i] % 5, cell[i] / 5);
+                match exists { 1 => defs.push(t(1, DEFAULT[i], &[], &["a"])), 2 => defs.push(t(3, DEFAULT[i], &[], &["T0"])), _ => {} }
+                match state { 1 => in_def.push((OPS[i], DEFAULT[i])), 2 => in_def.push((OPS[i], "T0")), 3 => in_ext.push((OPS[i], DEFAULT[i])), 4 => in_ext.push((OPS[i], "T0")), _ => {} }
+            }
+            let sdirs: &[&str] = if with_dir { &["d"] } else { &[] };
+            if !in_def.is_empty() { defs.push(sch(Tag::SchemaDef, sdirs, &in_def)); }
+            else if with_dir && in_ext.is_empty() { continue; }
+            if split_ext { for r in &in_ext { defs.push(sch(Tag::SchemaExt, &[], &[*r])); } }
+            else if !in_ext.is_empty() { defs.push(sch(Tag::SchemaExt, if in_def.is_empty() { sdirs } else { &[] }, &in_ext)); }
+            if with_dir { defs.push(dirdef("d")); }
+            ctx.stat("family_root_matrix");
+            if !in_ext.is_empty() { ctx.stat("family_root_matrix_root_set_by_extension"); }
+            structured_case(ctx, &[defs.clone()]);
+            // all roots come from extensions: the only way to build that is `adopt_orphan_extensions` (or implicit roots)
+            if in_def.is_empty() && !in_ext.is_empty() { adopt_case(ctx, &defs); }
+        }
+    }
+}
+
+/// oracle only: the schema is built AND re-parsed with `adopt_orphan_extensions` (the model of `c12.roundtrip` has no such flag)
+fn adopt_case(ctx: &mut Ctx, defs: &[D]) {
+    let (texts, _, _) = assemble(&[defs.to_vec()]);
+    let b = build_schema(&texts, true, false);
+    if b.errors.is_some() { ctx.stat("adopt_document_has_build_errors"); return; }
+    ctx.stat("clean_adopt_documents");
+    let text = b.schema.to_string();
+    let b2 = build_schema(&[text.clone()], true, false);
+    let rt = Rt { text, re_errors: messages(&b2.errors), re: b2.schema };
+    oracle(ctx, &format!("adopt_orphan_extensions: {}", show(&texts)), &b.schema, &rt);
+}
+
+/// Every non-empty subset of {directives, interfaces, members} as the content of one extension and of each of two
+/// extensions, for every kind; definition first / between / last (thorough: all three places for the pairs).
+fn extension_subsets(ctx: &mut Ctx) {
+    let member_pool: [&[&str]; 6] = [&[], &["f0", "f1", "f2"], &["f0", "f1", "f2"], &["U0", "U1", "U2"], &["V0", "V1", "V2"], &["f0", "f1", "f2"]];
+    for kind in 0..6usize {
+        let classes: Vec<usize> = match kind { 0 => vec![1], 1 | 2 => (1..8).collect(), _ => vec![1, 4, 5] }; // bit 0 directives, bit 1 interfaces, bit 2 members
+        let mk = |tag: Tag, bits: usize, n: usize| -> D {
+            let mut d = D { tag, kind, name: "X".into(), dirs: vec![], ifaces: vec![], members: vec![] };
+            if bits & 1 != 0 { d.dirs.push(format!("d{}", n % 2)); }
+            if bits & 2 != 0 { d.ifaces.push(format!("I{n}")); }
+            if bits & 4 != 0 { d.members.push((member_pool[kind][n].to_string(), String::new())); }
+            d
+        };
+        let def_bits = if kind == 0 { 0 } else { 4 };
+        for &a in &classes {
+            for place in 0..2 {
+                let (dd, e1) = (mk(Tag::TypeDef, def_bits, 0), mk(Tag::TypeExt, a, 1));
+                ctx.stat("family_extension_subsets");
+                structured_case(ctx, &[if place == 0 { vec![dd, e1] } else { vec![e1, dd] }]);
+            }
+            if !ctx.thorough { continue; }
+            // no definition at all: adopted
+            adopt_case(ctx, &[mk(Tag::TypeExt, a, 1)]);
+        }
+        for &a in &classes { for &b in &classes {
+            let places: &[usize] = if ctx.thorough { &[0, 1, 2] } else { &[0] };
+            for &place in places {
+                let (dd, e1, e2) = (mk(Tag::TypeDef, def_bits, 0), mk(Tag::TypeExt, a, 1), mk(Tag::TypeExt, b, 2));
+                let ds = match place { 0 => vec![dd, e1, e2], 1 => vec![e1, dd, e2], _ => vec![e1, e2, dd] };
+                ctx.stat("family_extension_subsets");
+                structured_case(ctx, &[ds.clone()]);
+                if ctx.thorough { structured_case(ctx, &[ds[..1].to_vec(), ds[1..].to_vec()]); }
+            }
+        } }
+    }
+}
+
+/// Extensions of every built-in type, redefinitions of every built-in directive.
+fn builtin_family(ctx: &mut Ctx) {
+    let builtins: [(&str, usize); 13] = [("Int", 0), ("Float", 0), ("String", 0), ("Boolean", 0), ("ID", 0), ("__Schema", 1), ("__Type", 1), ("__Field", 1),
+        ("__InputValue", 1), ("__EnumValue", 1), ("__Directive", 1), ("__TypeKind", 4), ("__DirectiveLocation", 4)];
+    for (name, kind) in builtins {
+        let member: &[&str] = match kind { 1 => &["zq"], 4 => &["ZV"], _ => &[] };
+        let q = t(1, "Query", &[], &["a"]);
+        ctx.stat("family_builtin_extension");
+        structured_case(ctx, &[vec![e(kind, name, &["d"], member), q.clone(), dirdef("d")]]);
+        ctx.stat("family_builtin_extension");
+        structured_case(ctx, &[vec![q.clone(), e(kind, name, &["d"], member), e(kind, name, &["d", "d"], &[]), dirdef("d")]]);
+    }
+    let bd = ["skip", "include", "deprecated", "specifiedBy"];
+    for i in 0..bd.len() {
+        ctx.stat("family_builtin_directive_redefined");
+        structured_case(ctx, &[vec![t(1, "Query", &[], &["a"]), dirdef(bd[i])]]);
+        structured_case(ctx, &[vec![dirdef(bd[i]), dirdef("d"), dirdef(bd[(i + 1) % 4]), t(1, "Query", &["d"], &["a"])]]);
+    }
+    structured_case(ctx, &[bd.iter().rev().map(|n| dirdef(n)).chain(std::iter::once(t(1, "Query", &[], &["a"]))).collect()]);
+}
+
+/// Free text (oracle only): every kind of definition with every kind of decoration the serializer copies from the
+/// definition / extension nodes — descriptions (none, empty, one line, block), directive applications with arguments,
+/// member descriptions / arguments / default values — with 0–2 extensions before or after the definition.
+fn decorated_family(ctx: &mut Ctx) {
+    const SUPPORT: &str = "directive @d0(x: Int) repeatable on SCHEMA | SCALAR | OBJECT | FIELD_DEFINITION | ARGUMENT_DEFINITION | INTERFACE | UNION | ENUM | ENUM_VALUE | INPUT_OBJECT | INPUT_FIELD_DEFINITION\n\
+        directive @d1(x: Int) repeatable on SCHEMA | SCALAR | OBJECT | FIELD_DEFINITION | ARGUMENT_DEFINITION | INTERFACE | UNION | ENUM | ENUM_VALUE | INPUT_OBJECT | INPUT_FIELD_DEFINITION\n\
+        type Query { q: Int }\ntype P { p: Int }\ntype Q2 { p: Int }\ninterface I { i: Int }\ninterface J { j: Int }\n";
+    let descs = ["", "\"\" ", "\"one line\" ", "\"\"\"\n  block \\\"\"\" with \"quotes\"\n    indented\n\n  and a blank line\n\"\"\"\n"];
+    let dirs = ["", " @d0", " @d0(x: 1) @d1 @d0(x: 2)"];
+    // (definition head, definition body, [extension head, extension body] × 2); `{D}` = description, `{A}` = directives
+    let subjects: [(&str, [&str; 3]); 8] = [
+        ("scalar", ["{D}scalar S{A}", "extend scalar S @d1(x: 7)", "extend scalar S @d0 @d1"]),
+        ("object", ["{D}type O implements I{A} { {D}i(\n{D}a: Int = 1 @d0, b: [String!]! = [\"x\"]): Int @d0 g: [O!]! }", "extend type O implements J @d1 { {D}j(b: String = \"s\\n\"): ID @deprecated(reason: \"no\") }", "extend type O @d0(x: 3) { k: Float }"]),
+        ("interface", ["{D}interface N implements I{A} { {D}i(a: Int = 1 @d0): Int n: N }", "extend interface N implements J @d1 { {D}j: ID }", "extend interface N @d0 { k(x: [Int] = [1, 2]): Float }"]),
+        ("union", ["{D}union U{A} = P | Query", "extend union U @d1 = Q2", "extend union U @d0(x: 1)"]),
+        ("enum", ["{D}enum E{A} { {D}A @d0 B }", "extend enum E @d1 { {D}C @deprecated(reason: \"x\") }", "extend enum E { D2 @d1(x: 4) }"]),
+        ("input", ["{D}input In{A} { {D}a: Int = 3 @d0 b: [In!] }", "extend input In @d1 { {D}c: String = \"q\" }", "extend input In { d: In = {a: 1, b: [{a: 2}]} }"]),
+        ("schema", ["{D}schema{A} { query: Query }", "extend schema @d1 { mutation: P }", "extend schema @d0(x: 9)"]),
+        ("directive", ["{D}directive @dd({D}x: Int = 1 @d0, y: [In2] = [{z: 1.5}]) repeatable on FIELD | OBJECT\ninput In2 { z: Float }", "", ""]),
+    ];
+    for (what, parts) in subjects {
+        for (di, desc) in descs.iter().enumerate() {
+            for a in dirs {
+                let fill = |s: &str| s.replace("{D}", desc).replace("{A}", a);
+                let n_ext_max = if parts[1].is_empty() { 0 } else { 2 };
+                for n_ext in 0..=n_ext_max {
+                    for before in [false, true] {
+                        if before && n_ext == 0 { continue; }
+                        let mut pieces: Vec<String> = vec![];
+                        let exts: Vec<String> = (1..=n_ext).map(|k| fill(parts[k])).collect();
+                        if before { pieces.extend(exts.clone()); }
+                        pieces.push(fill(parts[0]));
+                        if !before { pieces.extend(exts); }
+                        let text = format!("{SUPPORT}{}\n", pieces.join("\n"));
+                        let b = build_schema(&[text.clone()], false, false);
+                        if b.errors.is_some() { ctx.stat("decorated_document_has_build_errors"); continue; }
+                        ctx.stat("family_decorated");
+                        ctx.stat(&format!("family_decorated_{what}"));
+                        if di > 0 { ctx.stat("family_decorated_with_description"); }
+                        let rt = roundtrip(&b.schema);
+                        // the decoration must be there after the round trip (the oracle compares schemas, this guards the generator)
+                        if di > 1 && !rt.text.contains(if di == 2 { "one line" } else { "indented" }) { ctx.fail("description-lost-in-serialization", &text.replace('\n', " "), &rt.text.replace('\n', " ")); }
+                        oracle(ctx, &text.replace('\n', " "), &b.schema, &rt);
+                    }
+                }
+            }
+        }
+    }
+}
+
 pub fn run(ctx: &mut Ctx) {
     for ds in regressions() {
         structured_case(ctx, &[ds.clone()]);
         if ds.len() > 1 { structured_case(ctx, &[ds[..1].to_vec(), ds[1..].to_vec()]); }
     }
+    root_matrix(ctx);
+    extension_subsets(ctx);
+    builtin_family(ctx);
+    decorated_family(ctx);
     let n = if ctx.thorough { 40_000 } else { 4_000 };
     for i in 0..n {
         let ds = gen_clean(ctx, i % 3 == 0);
